@@ -854,6 +854,7 @@ SYM_SHAPES = {          # how the formula is embedded; True = only its truth val
     "not": ("y = not ({f})\n", True), "call": ("print({f})\n", False), "return": ("def g(x, y, z):\n    return {f}\n", False),
     "while": ("while {f}:\n    break\n", True), "comp": ("y = [1 for _ in (1,) if {f}]\n", True),
     "expr": ("{f}\n", True), "nested": ("y = ({f}) or x\n", False), "assert": ("assert {f}\n", True),
+    "ifexp_body": ("y = ({f}) if z else 0\n", False), "subscript": ("y = t[{f}]\n", False),
 }
 
 
@@ -1704,7 +1705,7 @@ def check(run: common.Run):
               "2-argument forms); seeded random 1-3 `if`s of nested and-trees. Non-trivial = the rule "
               "yields a rewrite; distinct by source text. symmath (sympy): ALL binary and/or trees with <= 3 leaves "
               "(not on leaves) over three pools of 3 atoms (names / comparisons of x / mixed with an opaque call), 4 leaves "
-              "strided (quick) or all (thorough), seeded random n-ary formulas over <= 5 atoms in 11 embeddings; every "
+              "strided (quick) or all (thorough), seeded random n-ary formulas over <= 5 atoms in 13 embeddings; every "
               "(node, replacement) the rule yields is one validated pair (distinct by text + context). sums (sympy): 11 "
               "polynomial element expressions x literal ranges with bounds in [-2,5] (1-3 arguments, steps 2,3,-1,-2), 11 "
               "symbolic range forms, nested / dependent generators, tuple/list/set displays, seeded random polynomials; "
